@@ -135,6 +135,7 @@ class Session:
         self.xknx = None
         self.injected = []
         self.first_tunnel = None
+        self.life = 0
         self.k_connected = 0
         gw = self.gw
         gw.hb_policy = self._hb_policy
@@ -380,12 +381,15 @@ class Session:
 
     async def user_disconnect(self):
         first = not self.user_disconnect_called
+        life = self.life  # a disconnect() still running when the user connects again belongs to the previous life
         self.user_disconnect_called = True
         self.gw.note("user_disconnect_called")
         try:
             await self.tunnel.disconnect()
         except CommunicationError as exc:
             self.gw.note("user_disconnect_raised", exc=repr(exc)[:100])
+        if life != self.life:
+            return
         if first or not self.user_disconnect_returned:
             self.user_disconnect_returned = True
             self.gw.note("user_disconnect_returned")
@@ -446,6 +450,7 @@ class Session:
                 await self.user_disconnect()
                 await asyncio.sleep(3)  # silence is judged here as well
                 self.user_disconnect_called = self.user_disconnect_returned = False
+                self.life += 1
                 self.gw.note("user_connect_called")
                 self.count("user_reconnects")
         elif self.variant == "second-tunnel":
@@ -462,6 +467,7 @@ class Session:
             self.first_tunnel = self.tunnel
             self.tunnel = self.make_tunnel()
             self.user_disconnect_called = self.user_disconnect_returned = False
+            self.life += 1
             self.gw.note("user_connect_called")
             self.count("second_tunnel_objects")
         t0 = loop.time()
